@@ -315,7 +315,7 @@ pub fn choose_ks(q: u64, rinf: &SearchRun, rng: &mut Rng, all_below: u64, random
 
 pub fn run_c07(tier: Tier, seed: u64) -> i32 {
     let mut run = Run::new("C07", tier, seed, "fault_enumeration");
-    run.rule = "fault = the index k of the clock query at which the allowance expires (thread-local virtual clock substituted in utils::out_of_time; monotone like the real clock). For each root (position + history loaded through the real position handler) and iteration limit D the unaborted run R_inf is recorded (Q clock queries, event list of sends and info lines), then R_k is run for every k in [0,Q] when Q is small, otherwise for k in [0,150], the last 80, every k within 3 of an accepted improvement / info line / iteration start, k at and after the entry of (a sample of) null-move children, and seeded random k. evaluation = one run R_k (or one handed-back board). Non-trivial = 0 < k < Q (expiry strictly inside the search); distinct by (root, D, k)".into();
+    run.rule = "fault = the index k of the clock query at which the allowance expires (thread-local virtual clock substituted in utils::out_of_time; monotone like the real clock). For each root (position + history loaded through the real position handler) and iteration limit D the unaborted run R_inf is recorded (Q clock queries, event list of sends and info lines), then R_k is run for every k in [0,Q] when Q is small, otherwise for k in [0,150], the last 80, every k within 3 of an accepted improvement / info line / iteration start, k at and after the entry of (a sample of) null-move children, and seeded random k. evaluation = one run R_k (or one handed-back board). Checkmated and stalemated roots are run with every expiry index 0..Q+2 as well (nothing may be handed back, nothing may panic). Non-trivial = 0 < k < Q (expiry strictly inside the search) or an expiry on a terminal root; distinct by (root, D, k)".into();
     run.assumptions = vec![
         "the virtual clock can expire between any two consecutive queries and never un-expires, exactly like the monotonic Instant it replaces; it cannot create an execution the real clock could not".into(),
         "repetition record equality is exact: an entry left behind with a zero count is a difference".into(),
@@ -437,6 +437,40 @@ pub fn run_c07(tier: Tier, seed: u64) -> i32 {
     });
     for a in results {
         run.acc.merge(a, &["max_ply_seen", "deep_max_iteration_reached", "deep_max_ply_seen"]);
+    }
+    // Terminal roots (checkmate, stalemate): the allowance can expire there too - during the
+    // empty iterations - and the search must end quietly: no panic, nothing handed back (there
+    // is no legal move), record untouched.
+    let terms = super::c08::terminal_positions(seed, tier.pick(60, 600));
+    let results = par::par_map(terms.len(), |j| {
+        let mut acc = Acc::new();
+        let p = &terms[j];
+        let hist = History { start: p.clone(), moves: Vec::new(), end: p.clone() };
+        let root = match make_root(hist, &h) {
+            Ok(r) => r,
+            Err(e) => {
+                acc.inconclusive.push(format!("terminal root {} could not be loaded: {}", p.to_fen(), e));
+                return acc;
+            }
+        };
+        let rinf = run_search(&root.board, &root.table, None, 99);
+        acc.evaluations += 1;
+        check_run("C07", &root, 99, None, &rinf, &mut acc);
+        let q = rinf.report.queries;
+        acc.count("terminal_roots", 1);
+        acc.max("terminal_root_max_clock_queries", q);
+        for k in 0..=(q + 2).min(130) {
+            let rk = run_search(&root.board, &root.table, Some(k), 99);
+            acc.evaluations += 1;
+            acc.count("terminal_root_runs", 1);
+            acc.distinct.insert(hash64(&format!("term|{}|{}", p.to_fen(), k)));
+            acc.feature("expiry_on_terminal_root");
+            check_run("C07", &root, 99, Some(k), &rk, &mut acc);
+        }
+        acc
+    });
+    for a in results {
+        run.acc.merge(a, &["max_ply_seen", "terminal_root_max_clock_queries"]);
     }
     let t_deep = t_phase.elapsed().as_secs_f64();
     super::timed::c07_schedules(&mut run);
